@@ -9,6 +9,7 @@ mod props;
 mod src;
 mod structure;
 mod tsparse;
+mod worker;
 
 use ev::Tier;
 
@@ -21,8 +22,10 @@ fn main() {
     comp::remove_env();
     comp::install_panic_hook();
     // deep nom recursion on generated inputs must not overflow the worker threads' stacks
-    let _ = rayon::ThreadPoolBuilder::new().stack_size(256 << 20).build_global();
     let args: Vec<String> = std::env::args().skip(1).collect();
+    if args.first().map(|s| s.as_str()) != Some("worker") {
+        let _ = rayon::ThreadPoolBuilder::new().stack_size(128 << 20).build_global();
+    }
     if args.is_empty() {
         usage();
     }
